@@ -6,7 +6,7 @@ CONSTANT Small
 Inputs   == {"valid", "validkw", "validnoterm", "validfull", "lexical", "syntax", "semantic", "dfaconflict", "lalrconflict", "missing", "isdir", "none"}
 OutFlags == {"default", "abs", "rel"}
 OutState == {"dir", "missing", "file"}
-NameFlag == {"none", "valid", "invalid", "keyword", "hyphen", "dot", "space", "slash", "underscore"}
+NameFlag == {"none", "valid", "invalid", "keyword", "hyphen", "dot", "space", "slash", "underscore", "supnum", "unidigit"}
 PkgState == {"absent", "dir", "dirwithfiles", "file", "symlink"}
 Extra    == IF Small THEN {"none", "both"} ELSE {"none", "debug", "verbose", "both"}
 Cfg(m, i, of, os, nf, ps, x) == [mode |-> m, input |-> i, outflag |-> of, outstate |-> os, nameflag |-> nf, pkgstate |-> ps, extra |-> x]
